@@ -20,6 +20,13 @@ RULE = ("scripted steppers walking through prescribed state / observable sequenc
         "calculate_variable_autocorrelation and calculate_spin_product_autocorrelation; values k/4 with partly smoothed "
         "(correlated) columns, columns forced non-constant; tempering helper on 1..4 mock replicas with scripted swaps; "
         "calculate_variable_autocorrelation on real Ising samplers against a single-stepped clone; excluded inputs once. "
+        "Shift invariance with |mean| >> fluctuation: the table-mapper cases are repeated with a mix of columns shifted by "
+        "+-2^k, k in {10,14,17,20} (every k meets power-of-two and non-power-of-two lengths), through "
+        "calculate_autocorrelation, calculate_bond_autocorrelation (mapper = value_for_bond) and, in half of the temper cases, "
+        "the tempering helpers (closure mapper and bond mapper). All such values and their running sums are exactly "
+        "representable, so the rational model sees the same numbers; the unchanged code removes the rounded mean first, which "
+        "shifts every entry of a column by the same delta <= 2^(k-53) and therefore perturbs the result only in second order "
+        "(T*delta^2/sum y^2 < 1e-16 for k <= 20; measured worst deviation from the model 1.4e-15), far below the 1e-9 tolerance. "
         "Non-trivial = all columns non-constant (oracle applies); distinct = distinct input line.")
 
 
